@@ -152,6 +152,15 @@ Example C20_f20_now :
   hyps root6 f20n [sg 2 1] /\ lint_model root6 f20n = Some [DMissing (tk 0) [(3, tk 11)]].
 Proof. exact f20_now. Qed.
 
+(* ports: the code asks `ent.is_signal()` (object class) only, so a port of ANY mode is a read signal; in
+   particular an OUT port that the process reads back (legal since VHDL-2008) must be in the list *)
+Theorem C20_port_is_signal : forall root i m, root i = KPort m -> is_signal root i = true.
+Proof. exact port_is_signal. Qed.
+Example C20_out_port_read :
+  root6 6 = KPort MOut /\ hyps root6 f_outport [sg 2 1] /\
+  lint_model root6 f_outport = Some [DMissing (tk 0) [(6, tk 9)]].
+Proof. exact out_port_read. Qed.
+
 (* F20: the code before 8599f6f analysed the actuals of all modes: the out-mode actual `o` was reported as
    missing although it is only written *)
 Theorem C20_out_actual_old_refuted :
@@ -216,6 +225,8 @@ Print Assumptions C20_order_old_refuted.
 Print Assumptions C20_call_span_old_refuted.
 Print Assumptions C20_f20_now.
 Print Assumptions C20_out_actual_old_refuted.
+Print Assumptions C20_port_is_signal.
+Print Assumptions C20_out_port_read.
 Print Assumptions C20_cache_history_exact.
 Print Assumptions C20_cache_every_step_exact.
 Print Assumptions C20_cache_prune_by_primary_refuted.
